@@ -394,7 +394,8 @@ def _thorough(ctx, module):
     quiet = [x for x in res if x["status"] == "quiet-ok"]
     bad = [x for x in res if x["status"] in ("MISSED", "FALSE-ALARM", "nocompile")]
     skipped = [x for x in res if x["status"] == "skipped"]
-    ctx.extra["selftest"] = {"variants": len(res), "breaking_caught": len(caught), "behaviour_preserving_quiet": len(quiet), "skipped_anchor_gone": len(skipped),
+    unrep = [x for x in res if x["status"] == "unreported-by-policy"]
+    ctx.extra["selftest"] = {"variants": len(res), "breaking_caught": len(caught), "breaking_not_reported_by_policy": len(unrep), "behaviour_preserving_quiet": len(quiet), "skipped_anchor_gone": len(skipped),
                              "problems": bad, "results": res}
     print("  thorough/E6: %d seeded variants: %d breaking caught, %d behaviour-preserving quiet, %d skipped, %d problems" % (len(res), len(caught), len(quiet), len(skipped), len(bad)))
     for x in bad:
